@@ -9,7 +9,7 @@ sign path down to what a conforming device ends up holding.
 import itertools
 import struct
 
-from ..framework import Check, Violation
+from ..framework import Check, Violation, optimized
 from ..env import Rng
 from ..refs import btc as B
 from .. import reqs, harness
@@ -99,6 +99,9 @@ class C14(Check):
         for i in range(8):
             cs.append({"kind": "trunc", "base": i})
         cs.append({"kind": "empty"})
+        # the same under `python -O` (assert statements compiled away): validation must not live in asserts
+        for sub in [{"kind": "empty"}, {"kind": "trunc", "base": 0}]:
+            cs.append({"kind": "optimized", "sub": sub})
         return cs
 
     # -- building ------------------------------------------------------------
@@ -131,6 +134,8 @@ class C14(Check):
 
     # -- running -------------------------------------------------------------
     def run_case(self, case, stats):
+        if case["kind"] == "optimized":
+            return optimized(self, case, stats)
         vs = []
         k = case["kind"]
         pairs = {}
